@@ -232,6 +232,9 @@ def run_seed(job):
     # depth-1 successors that duplicate names
     for label, f in (("unroll", lambda: S.unroll_loop(p, p.find_loop("i"))),
                      ("cut", lambda: S.cut_loop(p, p.find_loop("i"), 1)),
+                     # a cut point that is an expression: it becomes the LOWER bound of the second loop
+                     ("cut_expr", lambda: S.cut_loop(p, p.find_loop("i"), "n / 2")),
+                     ("shift", lambda: S.shift_loop(p, p.find_loop("i"), "n + 1")),
                      ("divide", lambda: S.divide_loop(p, p.find_loop("i"), 2, ["i", "i"], tail="cut"))):
         try:
             procs.append((label, f()))
